@@ -68,6 +68,8 @@ profile_by_name(const std::string &name, const std::string &prop, int tier)
         } else if (name == "reinit") { // C15
                 p.oracles = OR_FIFO | OR_DESC | OR_SOLO;
                 p.allow_reinit = true;
+                p.allow_invalid = true; // so that a re-init also happens with a pending error code in the manager
+                p.allow_misuse = true;
                 p.max_ops = 120;
                 p.max_len = 1024;
         } else if (name == "reattach") { // C16
